@@ -16,13 +16,9 @@ K_PROTO, K_CAND, K_SUB, K_REGION = 1, 2, 3, 4
 STRAND_CODE = {1: 1, -1: -1, 0: 0, None: 2}
 CODE_STRAND = {v: k for k, v in STRAND_CODE.items()}
 
+# classes of gene layouts, named after the two repaired findings F13a / F13b (fixed: nothing is suppressed for them; a
+# specification failure on such a layout is reported as a VIOLATION that names the class)
 CLASS_NAME = {1: "nested_genes", 2: "origin_spanning_gene"}
-KNOWN_TEXT = {
-    "nested_genes": "get_cds_features_within_location misses genes when genes are nested or multi-exon "
-                    "(early exit / late start of the scan); areas added after such genes miss them as members",
-    "origin_spanning_gene": "get_cds_features_within_location misses an origin-spanning gene (or genes sorted "
-                            "after it) for queries away from the origin",
-}
 
 
 # ------------------------------------------------------------------ encoding
@@ -139,7 +135,8 @@ def gen_gene_parts(rng, n, circular, style):
 
 
 def gen_layout(rng, n, circular):
-    """ list of gene locations; styles: monotone (satisfies the guard of C08_lookup), nested, same-start, random """
+    """ list of gene locations; styles: monotone (no gene nested in another), nested, same-start, random, multi-exon,
+        plain; every one satisfies the hypotheses of C08_lookup """
     style = rng.choice(["monotone", "monotone", "nested", "samestart", "random", "random", "exons", "plain"])
     k = rng.choice([1, 2, 3, 3, 4, 4, 5, 6, 8])
     locs = []
@@ -428,19 +425,16 @@ def run_history(n, circular, seq, areas):
     return flat, out, hist
 
 
-RULE = ("(1) look-ups: records of 8-60 bases (linear / circular), 1-8 genes in layouts monotone (the theorem's guard), nested, "
+RULE = ("(1) look-ups: records of 8-60 bases (linear / circular), 1-8 genes in layouts monotone, nested, "
         "same-start, random, multi-exon and origin-spanning, both strands, shuffled insertion order; queries simple (ends on "
         "gene boundaries +-1), negative start (end >= 1), compound (2-3 parts) and wrapped; with_overlapping both ways. "
         "(2) histories: 1-8 genes with CORE annotations for products drawn from a pool of rule names that are substrings / prefixes of each other (compared as strings), 1-6 areas (sub-regions, protoclusters with a core, "
         "candidate clusters of one or two protoclusters) and regions made by create_regions or explicit add_region, interleaved at "
         "random / genes first / areas first; final cds_children, definition_cdses, cds.region, gene order and region order "
-        "compared with the model.  The specification (exact set, order) is evaluated on every implementation output; outputs "
-        "violating it outside the theorem's guard are attributed to the recorded classes nested_genes / origin_spanning_gene. "
+        "compared with the model.  The specification (exact set, order) is evaluated on every implementation output; every output "
+        "violating it is a VIOLATION (the classes nested_genes / origin_spanning_gene of the repaired findings F13a / F13b are "
+        "named in the report, nothing is suppressed); the hypotheses of C08_lookup hold on every generated look-up. "
         "Non-trivial = look-up with >= 2 genes and a non-empty answer, or history with a gene inside an area")
-
-
-def known_classes():
-    return {f["class"] for f in common.load_known_findings("C08") if f.get("status") == "known"}
 
 
 def run(chk):
@@ -452,13 +446,24 @@ def run(chk):
     n_hist = 4000 if quick else 60000
     cases, impl_outs, infos = [], [], []
 
-    # regression corpus: witnesses of the repaired defects F35 / F30 and of the recorded classes
+    # regression corpus: witnesses of the repaired defects F35 / F30 / F13a (nested_genes) / F13b (origin_spanning_gene)
+    nested = [(0, [(6, 10, 1)], []), (1, [(6, 23, 1)], []), (2, [(6, 26, 1)], []), (3, [(8, 19, 1)], [])]
+    spanning = [(0, [(35, 40, 1), (0, 4, 1)], []), (1, [(10, 14, 1)], []), (2, [(20, 30, 1)], [])]
     corpus_lookups = [
         (100, True, [(0, [(85, 95, 1)], [])], [(90, 100, 1), (0, 10, 1)], True),
-        (30, False, [(0, [(6, 10, 1)], []), (1, [(6, 23, 1)], []), (2, [(6, 26, 1)], []), (3, [(8, 19, 1)], [])],
-         [(5, 20, 1)], False),
-        (40, True, [(0, [(35, 40, 1), (0, 4, 1)], []), (1, [(10, 14, 1)], []), (2, [(20, 30, 1)], [])],
-         [(36, 40, 1)], True),
+        # F13a: the forward scan stopped at [6:23) (neither a hit nor the container of its successor) ...
+        (30, False, nested, [(5, 20, 1)], False),
+        # ... and the walk back stopped at [8:19), which ends before the query although [6:23) and [6:26) reach it
+        (30, False, nested, [(20, 22, 1)], True),
+        (30, False, nested[::-1], [(20, 22, 1)], True),
+        # a multi-exon gene whose second exon reaches the query, followed by a short gene that ends before it
+        (60, False, [(0, [(2, 5, 1), (40, 50, 1)], []), (1, [(8, 12, 1)], []), (2, [(30, 45, 1)], [])], [(38, 48, 1)], True),
+        # F13b: the gene crossing the origin was not reached by a query before the origin, nor by one after it
+        (40, True, spanning, [(36, 40, 1)], True),
+        (40, True, spanning, [(2, 12, 1)], True),
+        (40, True, spanning + [(3, [(32, 37, 1)], [])], [(31, 40, 1), (0, 12, 1)], True),
+        (40, True, spanning + [(3, [(32, 37, -1)], []), (4, [(0, 3, -1), (36, 40, -1)], [])], [(31, 40, 1), (0, 12, 1)], False),
+        (40, True, spanning + [(3, [(32, 37, 1)], [])], [(0, 40, 1)], False),
     ]
     todo = list(corpus_lookups)
     for _ in range(n_lookup_layouts):
@@ -504,6 +509,14 @@ def run(chk):
                                   ("gene", 4, [(1520, 1600, -1)], ["NRPS"]),
                                   ("area", ("proto", [(1050, 1650, 1)], [(1100, 1600, 1)], "NRPS-like")),
                                   ("regions", "create")])]
+    # F13a / F13b in histories: areas added AFTER nested / origin-crossing genes list them as members
+    corpus_hist.append((30, False, [("gene", 0, [(6, 10, 1)], []), ("gene", 1, [(6, 23, 1)], []), ("gene", 2, [(6, 26, 1)], []),
+                                    ("gene", 3, [(8, 19, 1)], ["NRPS"]), ("area", ("sub", [(5, 20, 1)])),
+                                    ("area", ("proto", [(6, 27, 1)], [(8, 19, 1)], "NRPS")), ("area", ("sub", [(6, 23, 1)])),
+                                    ("regions", "create")]))
+    corpus_hist.append((40, True, [("gene", 0, [(35, 40, 1), (0, 4, 1)], []), ("gene", 1, [(10, 14, 1)], []),
+                                   ("gene", 2, [(20, 30, 1)], []), ("gene", 3, [(0, 2, 1)], []),
+                                   ("area", ("sub", [(0, 40, 1)])), ("area", ("sub", [(0, 15, 1)])), ("regions", "create")]))
     hists = []
     for n, circular, seq in corpus_hist:
         hists.append((n, circular, "corpus", "areas_first", seq, [op[1] for op in seq if op[0] == "area"]))
@@ -528,7 +541,6 @@ def run(chk):
     # the property itself, evaluated on every implementation output
     spec_cases = [[c[0], c[1] + 100] + c[2:] + o for c, o in zip(cases, impl_outs)]
     verdicts = common.run_driver(spec_cases)
-    listed = known_classes()
     reported = set()
     for i, verdict in enumerate(verdicts):
         if len(verdict) != 3:
@@ -540,11 +552,9 @@ def run(chk):
         chk.count(f"{what}_guard_{'holds' if guard else 'fails'}")
         if ok:
             continue
+        # no class is suppressed: F13a nested_genes / F13b origin_spanning_gene are repaired, the class only names the layout
         name = CLASS_NAME.get(cls, "?")
         chk.count(f"{what}_spec_fails_class_{name}")
-        if not guard and name in listed and model_outs[i] == impl_outs[i]:
-            chk.known(KNOWN_TEXT[name])
-            continue
         if len(reported) < 3:
             reported.add(i)
             chk.violation("counterexample",
@@ -553,7 +563,8 @@ def run(chk):
                            "history: in the final record some area's cds_children are not exactly the genes its location "
                            "contains, or a protocluster's definition_cdses are not exactly the genes in its core with a "
                            "CORE annotation for its product, or a gene's region is not the region containing it")
-                          + f" (guard {'holds' if guard else 'fails'}, class {name})",
+                          + f" (guard {'holds' if guard else 'fails'}, layout class {name}: the repaired finding "
+                            f"{'F13a' if cls == 1 else 'F13b' if cls == 2 else '?'} would show like this)",
                           {"theorem_or_correspondence": "C08_lookup" if what == "lookup"
                            else "C08_membership_order_independent", "flat": cases[i],
                            "input": infos[i], "implementation": impl_outs[i], "model": model_outs[i]})
